@@ -120,6 +120,7 @@ class Ctx:
         self.enum_types = []    # enum types usable in the member being generated (M.Type)
         self.enum_values = {}   # (path, owner, name) -> enumerators
         self.fn_sigs = set()
+        self.var_names = {}
         self.fn_templates = set()
         self.enumerators = set()  # all enumerator names used (compilable: must be unique)
         self.fn_count = {}      # (path, name) -> number of free functions of that name
@@ -624,6 +625,8 @@ def functions(draw, ctx: Ctx, path):
     pool = FUNC_POOL + (PY_KEYWORDS[:6] + ['print'] if prof.py_keyword_names else [])
     classes_here = {d.name for d in ctx.decls if d.path == path and d.kind != 'func'} | \
         {n for (p_, n) in ctx.locked if p_ == path}
+    if prof.compilable:
+        classes_here = classes_here | ctx.var_names.get(path, set())
     name = draw(lower_name(pool, classes_here))
     ctx.fn_count[(path, name)] = ctx.fn_count.get((path, name), 0) + 1
     r = draw(rets(ctx, tps))
@@ -718,8 +721,11 @@ def fwds(draw, ctx: Ctx, path):
 @st.composite
 def variables(draw, ctx: Ctx, path):
     used = ctx.names(path)
-    name = draw(lower_name(['kGravity', 'kMax', 'origin', 'eps', 'version'], used))
+    fn_here = {n for (p_, n) in ctx.fn_count if p_ == path}
+    name = draw(lower_name(['kGravity', 'kMax', 'origin', 'eps', 'version'],
+                           used | fn_here if ctx.prof.compilable else used))
     used.add(name)
+    ctx.var_names.setdefault(path, set()).add(name)
     t = draw(types(ctx, 2, ()))
     dflt = draw(st.sampled_from(DEFAULTS)) if ctx.prof.defaults and draw(st.booleans()) else None
     if ctx.prof.compilable and dflt is not None:
